@@ -46,6 +46,7 @@ CheckStepP(want, pre, e, post, acc, line) ==
   /\ (want["C16"]) => C16(pre, e, post, line)
   /\ (want["C17"]) => C17(pre, e, post, line)
   /\ (want["C04"]) => C04(pre, Eff(e), post, line)
+  /\ (want["C04"] \/ want["C09"]) => EXTHealth(pre, Eff(e), post, line)
   /\ (want["C05"]) => C05(pre, e, post, line)
   /\ (want["C07"]) => C07(pre, e, post, acc.c07, line)
   /\ (want["C09"]) => C09(pre, Eff(e), post, line)
